@@ -2496,7 +2496,13 @@ pub fn count_distinct() -> impl Function {
         Aggregate::from(
             DataType::Any,
             |values| (values.iter().cloned().collect::<HashSet<_>>().len() as i64).into(),
-            |(_dt, size)| Ok(size),
+            |(_dt, size)| {
+                // Several equal values count once: only an empty list gives 0, any other at least 1
+                Ok(match (size.min(), size.max()) {
+                    (Some(&min), Some(&max)) => data_type::Integer::from_interval(min.min(1), max),
+                    _ => size,
+                })
+            },
         ),
         // Optional implementation
         Aggregate::from(
